@@ -347,6 +347,15 @@ def _expr_chains(expr):
     return out
 
 
+def _pure_bool(e):
+    """and / or / not / comparisons over names, attributes and constants only (no calls, no subscripts): safe to re-read later"""
+    for n in ast.walk(e):
+        if not isinstance(n, (ast.BoolOp, ast.UnaryOp, ast.Compare, ast.Name, ast.Attribute, ast.Constant, ast.And, ast.Or, ast.Not, ast.Load,
+                              ast.cmpop)):
+            return False
+    return True
+
+
 class Facts(object):
     """immutable set of (condition text, polarity) known on the current path."""
     __slots__ = ('items',)
@@ -374,6 +383,84 @@ class Facts(object):
             if (key + ' is None', True) in self.items:
                 return None
         return Facts(self.items | frozenset([(key, p)]))
+
+    # --- boolean temporaries: `t = a or b` is remembered as the item ('(t := a or b)', True) until t, a or b is assigned again
+    @staticmethod
+    def _parsed(key, cache={}):
+        try:
+            return cache[key]
+        except KeyError:
+            try:
+                e = ast.parse(key, mode='eval').body
+            except SyntaxError:
+                e = None
+            cache[key] = e
+            return e
+
+    def definition(self, name):
+        """the expression a boolean temporary currently stands for, or None"""
+        pre = '(%s := ' % name
+        for k, p in self.items:
+            if k.startswith(pre):
+                e = self._parsed(k)
+                if isinstance(e, ast.NamedExpr):
+                    return e.value
+        return None
+
+    def define(self, name, expr):
+        if any(c == (name,) for c in _expr_chains(expr)):
+            return self
+        return Facts(self.items | frozenset([('(%s := %s)' % (name, src(expr)), True)]))
+
+    def assume_deep(self, expr, pol, depth=4):
+        """assume, and also what follows for the parts: a conjunction that holds / a disjunction that fails fixes every operand; a temporary stands for its definition"""
+        f = self.assume(expr, pol)
+        if f is None or depth == 0:
+            return f
+        e = expr
+        while isinstance(e, ast.UnaryOp) and isinstance(e.op, ast.Not):
+            e, pol = e.operand, not pol
+        if isinstance(e, ast.Name):
+            d = f.definition(e.id)
+            if d is not None:
+                return f.assume_deep(d, pol, depth - 1)
+        elif isinstance(e, ast.BoolOp) and isinstance(e.op, ast.And if pol else ast.Or):
+            for v in e.values:
+                f = f.assume_deep(v, pol, depth - 1)
+                if f is None:
+                    return None
+        return f
+
+    def value(self, text, depth=4):
+        """three-valued: what the facts say about a boolean expression built from known atoms with and / or / not, or about a temporary defined as one"""
+        k = self.knows(text)
+        if k is not None or depth == 0:
+            return k
+        e = self._parsed(text)
+        if e is None:
+            return None
+        if isinstance(e, ast.UnaryOp) and isinstance(e.op, ast.Not):
+            v = self.value(src(e.operand), depth - 1)
+            return None if v is None else not v
+        if isinstance(e, ast.BoolOp):
+            vs = [self.value(src(v), depth - 1) for v in e.values]
+            if isinstance(e.op, ast.And):
+                return False if any(v is False for v in vs) else (True if all(v is True for v in vs) else None)
+            return True if any(v is True for v in vs) else (False if all(v is False for v in vs) else None)
+        if isinstance(e, ast.Name):
+            d = self.definition(e.id)
+            if d is not None:
+                return self.value(src(d), depth - 1)
+            return None
+        # a temporary defined as exactly this expression
+        for key, p in self.items:
+            if key.startswith('(') and ' := ' in key:
+                ne = self._parsed(key)
+                if isinstance(ne, ast.NamedExpr) and src(ne.value) == src(e):
+                    kk = self.knows(ne.target.id)
+                    if kk is not None:
+                        return kk
+        return None
 
     def kill(self, killed, texts_cache={}):
         if not killed or not self.items:
@@ -461,6 +548,10 @@ class Flow(object):
                     f_ = facts2.assume(a.targets[0], a.value.value)
                     if f_ is not None:
                         facts2 = f_
+                # `t = <and/or/not/comparison over names>` : t stands for that expression until one of them is assigned again
+                if node.kind == 'stmt' and isinstance(a, ast.Assign) and len(a.targets) == 1 and isinstance(a.targets[0], ast.Name) \
+                        and isinstance(a.value, (ast.BoolOp, ast.UnaryOp, ast.Compare)) and _pure_bool(a.value):
+                    facts2 = facts2.define(a.targets[0].id, a.value)
                 # `name = None` is a fact about `name is None`
                 if node.kind == 'stmt' and isinstance(a, ast.Assign) and len(a.targets) == 1 and isinstance(a.targets[0], ast.Name) \
                         and isinstance(a.value, ast.Constant) and a.value.value is None:
@@ -479,7 +570,7 @@ class Flow(object):
                 for s, lab in node.succ:
                     f3 = facts2
                     if use_facts and lab is not None and lab[0] in ('T', 'F'):
-                        f3 = facts2.assume(lab[1], lab[0] == 'T')
+                        f3 = facts2.assume_deep(lab[1], lab[0] == 'T')
                         if f3 is None:
                             continue
                     c2 = c
